@@ -341,6 +341,26 @@ class Gen:
 
     def op_assign_num(self, sc, persist):
         rng = self.rng
+        if persist and rng.random() < 0.07:
+            # a long flat sum (5-8 terms, user calls among the later ones) stored into a persistent variable
+            # that the sum does not read
+            lhs = rng.choice(persist["nums"])
+            terms = []
+            for k in range(rng.randint(5, 8)):
+                for _ in range(6):
+                    q = rng.random()
+                    t = (self.ucall_scalar(sc, 1) if q < (0.25 if k < 4 else 0.6) else
+                         self.mk_prod([self.num_leaf(sc), self.num_leaf(sc)], sc) if q < 0.8 else self.num_leaf(sc))
+                    if lhs not in variables(t) and t[0] != "+":
+                        break
+                else:
+                    t = self.const()
+                terms.append(t)
+            rhs = self.mk_sum(terms, sc)
+            op = ["assign", lhs, None, rhs, [], self.s(rhs, ["var", lhs])]
+            if lhs not in sc.nums:
+                sc.nums.append(lhs)
+            return op
         rhs = self.num_expr(sc, rng.choice([0, 1, 2, 2, 3]))
         if persist and rng.random() < 0.45:
             lhs = rng.choice(persist["nums"])
